@@ -1,5 +1,5 @@
 //! Stub standing in for the real `mockall` crate in the witness corpus.
-//! `#[::mockall::automock]` re-emits the trait unchanged and adds one marker item
+//! `#[::mockall::automock]` re-emits the trait (or impl block) unchanged and adds one marker item
 //! `struct Mock<Trait>` (the name real mockall uses), so that a static query can observe
 //! "the mockall derivation was attached to this trait in this configuration".
 extern crate proc_macro;
@@ -7,16 +7,35 @@ use proc_macro::{Ident, Span, TokenStream, TokenTree};
 
 #[proc_macro_attribute]
 pub fn automock(_attr: TokenStream, item: TokenStream) -> TokenStream {
+    // trait Foo -> MockFoo; impl [Trait for] Type -> MockType (the names real mockall uses)
     let mut name = None;
     let mut prev_trait = false;
+    let mut after_impl = None;
+    let mut after_for = None;
+    let mut prev = String::new();
     for tt in item.clone() {
-        if let TokenTree::Ident(id) = &tt {
-            if prev_trait {
-                name = Some(id.to_string());
-                break;
+        match &tt {
+            TokenTree::Ident(id) => {
+                let s = id.to_string();
+                if prev_trait {
+                    name = Some(s.clone());
+                    break;
+                }
+                if prev == "impl" && after_impl.is_none() {
+                    after_impl = Some(s.clone());
+                }
+                if prev == "for" && after_for.is_none() {
+                    after_for = Some(s.clone());
+                }
+                prev_trait = s == "trait";
+                prev = s;
             }
-            prev_trait = id.to_string() == "trait";
+            TokenTree::Group(g) if g.delimiter() == proc_macro::Delimiter::Brace => break,
+            _ => {}
         }
+    }
+    if name.is_none() {
+        name = after_for.or(after_impl);
     }
     let mut out = item;
     if let Some(name) = name {
